@@ -21,12 +21,17 @@ class _LineInterp(Interp):
     def __init__(self, model, ns, attrs):
         super().__init__(model, ns, Obj(), self_attrs=attrs)
         self.parsed = []
+        self.lexer_at_parse = []
+
+    track_lexer = False
 
     def call_method(self, name, args, kwargs=None):
         if name == "parse_statement":
             self.parsed.append(copy.deepcopy(self.self_attrs.get("statement")))
+            if self.track_lexer:
+                self.lexer_at_parse.append(dict(self.lexer.__dict__))
             return None
-        if name == "set_default_flags_in_lexer":
+        if name == "set_default_flags_in_lexer" and not self.track_lexer:
             return None
         return super().call_method(name, args, kwargs)
 
@@ -168,6 +173,27 @@ class LineMachine:
         except _Return as r:
             return it.parsed, r.v
         raise AnalysisError("Parser.parse_data: no return")
+
+    DIRTY = "<left over from the previous statement>"
+
+    def lexer_flags_at_parse(self, state, line, more_lines=True):
+        """process_line evaluated with the reset function NOT intercepted and every lexer flag dirty beforehand: the lexer flags as
+        they are at each call of parse_statement (one dict per statement handed over)"""
+        from .deriv import _leaves, _project
+        start = dict(self.ctx.lexer.start_flags)
+        out = []
+        width = 6 if any(True for _ in _leaves([line, state])) else 1
+        for i in range(width):
+            attrs = dict(self.consts)
+            attrs.update(copy.deepcopy(_project(copy.deepcopy(state), i) if width > 1 else state))
+            attrs["line"] = _project(line, i) if width > 1 else line
+            it = _LineInterp(self.model, self.ctx.grammar.tokens_ns, attrs)
+            it.track_lexer = True
+            for k in start:
+                setattr(it.lexer, k, self.DIRTY)
+            it.call_func(self.model.parser_method("process_line"), [more_lines])
+            out.extend(it.lexer_at_parse)
+        return out, start
 
     def step_each(self, state, line, more_lines=True):
         """one (statements, new state) per exemplar - for line classes the machine does not treat uniformly"""
